@@ -47,6 +47,16 @@ func WithConcurrency() Option {
 	}
 }
 
+// WithoutConcurrency withdraws what WithConcurrency allowed. A VM keeps what
+// options set until other options set it again; this is the option with which
+// an invocation on a VM that was used before says that it does not allow
+// goroutines.
+func WithoutConcurrency() Option {
+	return func(vm *VirtualMachine) {
+		vm.concAllowed = false
+	}
+}
+
 // WithOS sets custom OS implementation in the context. This context is present
 // in the invocation of Risor builtins, this OS will be used for all related
 // functionality.
